@@ -18,8 +18,8 @@ ASSUMPTIONS = list(c08.ASSUMPTIONS) + [
 LEVEL = "other"
 NOT_COVERED = ["the third-party codecs and the batching framing of serializer.py",
                "message classes not listed among the functions under contract (the large option-carrying classes: Hello, "
-               "Welcome, Challenge, Authenticate, Error, Publish, Subscribe, Event, Call, Result, Register, Invocation, "
-               "Yield, Unsubscribe, Unregister)", "the per-message serialization cache (Message._serialized / uncache)"]
+               "Welcome, Challenge, Authenticate, Error, Publish, Event, Call, Result, Register, Invocation, Yield)",
+               "forward_for chains (lists of principals): the classes that carry one are proved for forward_for=None", "the per-message serialization cache (Message._serialized / uncache)"]
 MSG = "autobahn.wamp.message"
 BASE = {"_from_fbs": "none", "_serialized": "any", "_correlation_id": "any", "_correlation_uri": "any",
         "_correlation_is_anchor": "any", "_correlation_is_last": "any", "_router_internal": "any"}
@@ -33,10 +33,10 @@ def build(reg):
     reg.units[:] = [u for u in reg.units if "C03" in u.props]      # the validators are C08's units
     common = dict(props=["C03"], spec_module="specs.wampuri")
 
-    def lemma(fn, cls, fields, requires, same):
+    def lemma(fn, cls, fields, requires, same, extra_inline=()):
         shape = "M" + cls
         reg.shape(shape, cls=MSG + ":" + cls, fields=dict(BASE, **fields))
-        inl = [MSG + ":%s.%s" % (cls, x) for x in ["marshal", "parse", "__init__"] + list(same)] + [MSG + ":Message.__init__", MSG + ":check_or_raise_extra", MSG + ":_validate_kwargs",
+        inl = [MSG + ":%s.%s" % (cls, x) for x in ["marshal", "parse", "__init__"] + list(same) + list(extra_inline)] + [MSG + ":Message.__init__", MSG + ":check_or_raise_extra", MSG + ":_validate_kwargs",
                                                             MSG + ":MessageWithForwardFor.forward_for", MSG + ":MessageWithForwardFor.__init__",
                                                             MSG + ":MessageWithForwardFor._init_forward_for"]
         reg.contract("specs.c03_lemmas:" + fn, name="C03/roundtrip[%s]" % cls, params={"m": "obj:" + shape},
@@ -77,6 +77,11 @@ def build(reg):
           [ID % "_request", ID % "_subscription"], ["request", "subscription", "forward_for"])
     lemma("rt_unregister", "Unregister", {"_request": "int", "_registration": "int", "_forward_for": "none"},
           [ID % "_request", ID % "_registration"], ["request", "registration", "forward_for"])
+    lemma("rt_subscribe", "Subscribe", {"_request": "int", "_topic": "str", "_match": "str", "_get_retained": "opt:bool",
+                                         "_forward_for": "none"},
+          [ID % "_request", "uri_ok(m._topic, False, False, True)",
+           "m._match == 'exact' or m._match == 'prefix' or m._match == 'wildcard'"],
+          ["request", "topic", "match", "get_retained", "forward_for"], extra_inline=["marshal_options"])
 
 
 def extra_checks(tier, seed):
